@@ -7,15 +7,15 @@ Definition scanned_files : N := 106.
 Definition optional_backend_modules_absent : bool := true.
 
 Definition xml_sites : list site := [
-  mk_site (s2l "saml2_tophat/__init__.py") 114 (s2l "_parse_once") (s2l "fromstring") (Some (s2l "defusedxml.ElementTree")) KCall Core [] 1 false;
-  mk_site (s2l "saml2_tophat/__init__.py") 297 (s2l "extension_element_from_string") (s2l "fromstring") (Some (s2l "defusedxml.ElementTree")) KCall Core [] 1 false;
+  mk_site (s2l "saml2_tophat/__init__.py") 96 (s2l "create_class_from_xml_string") (s2l "fromstring") (Some (s2l "defusedxml.ElementTree")) KCall Core [] 1 false;
+  mk_site (s2l "saml2_tophat/__init__.py") 278 (s2l "extension_element_from_string") (s2l "fromstring") (Some (s2l "defusedxml.ElementTree")) KCall Core [] 1 false;
   mk_site (s2l "saml2_tophat/pack.py") 264 (s2l "parse_soap_enveloped_saml") (s2l "fromstring") (Some (s2l "defusedxml.ElementTree")) KCall Core [] 1 false;
   mk_site (s2l "saml2_tophat/sigver.py") 975 (s2l "CryptoBackendXMLSecurity.sign_statement") (s2l "parse_xml") (Some (s2l "xmlsec")) KCall OptionalBackend [] 1 false;
   mk_site (s2l "saml2_tophat/sigver.py") 976 (s2l "CryptoBackendXMLSecurity.sign_statement") (s2l "sign") (Some (s2l "xmlsec")) KCall OptionalBackend [] 2 false;
   mk_site (s2l "saml2_tophat/sigver.py") 977 (s2l "CryptoBackendXMLSecurity.sign_statement") (s2l "tostring") (Some (s2l "lxml.etree")) KCall OptionalBackend [((s2l "xml_declaration"), KwTrue)] 1 false;
   mk_site (s2l "saml2_tophat/sigver.py") 996 (s2l "CryptoBackendXMLSecurity.validate_signature") (s2l "parse_xml") (Some (s2l "xmlsec")) KCall OptionalBackend [] 1 false;
   mk_site (s2l "saml2_tophat/sigver.py") 999 (s2l "CryptoBackendXMLSecurity.validate_signature") (s2l "verify") (Some (s2l "xmlsec")) KCall OptionalBackend [] 2 false;
-  mk_site (s2l "saml2_tophat/sigver.py") 1788 (s2l "_enveloped_signature_ok") (s2l "fromstring") (Some (s2l "defusedxml.ElementTree")) KCall Core [] 1 false;
+  mk_site (s2l "saml2_tophat/sigver.py") 1793 (s2l "_enveloped_signature_ok") (s2l "fromstring") (Some (s2l "defusedxml.ElementTree")) KCall Core [] 1 false;
   mk_site (s2l "saml2_tophat/soap.py") 137 (s2l "parse_soap_enveloped_saml_thingy") (s2l "fromstring") (Some (s2l "defusedxml.ElementTree")) KCall Core [] 1 false;
   mk_site (s2l "saml2_tophat/soap.py") 187 (s2l "class_instances_from_soap_enveloped_saml_thingies") (s2l "fromstring") (Some (s2l "defusedxml.ElementTree")) KCall Core [] 1 false;
   mk_site (s2l "saml2_tophat/soap.py") 213 (s2l "open_soap_envelope") (s2l "fromstring") (Some (s2l "defusedxml.ElementTree")) KCall Core [] 1 false
@@ -26,46 +26,46 @@ Definition et_uses : list et_use := [
   mk_use (s2l "saml2_tophat/__init__.py") 30 (s2l "<module>") (s2l "elementtree.ElementTree") (s2l "VERSION");
   mk_use (s2l "saml2_tophat/__init__.py") 30 (s2l "<module>") (s2l "xml.etree.ElementTree") (s2l "VERSION");
   mk_use (s2l "saml2_tophat/__init__.py") 30 (s2l "<module>") (s2l "xml.etree.cElementTree") (s2l "VERSION");
-  mk_use (s2l "saml2_tophat/__init__.py") 193 (s2l "ExtensionElement.to_string") (s2l "cElementTree") (s2l "tostring");
-  mk_use (s2l "saml2_tophat/__init__.py") 193 (s2l "ExtensionElement.to_string") (s2l "elementtree.ElementTree") (s2l "tostring");
-  mk_use (s2l "saml2_tophat/__init__.py") 193 (s2l "ExtensionElement.to_string") (s2l "xml.etree.ElementTree") (s2l "tostring");
-  mk_use (s2l "saml2_tophat/__init__.py") 193 (s2l "ExtensionElement.to_string") (s2l "xml.etree.cElementTree") (s2l "tostring");
-  mk_use (s2l "saml2_tophat/__init__.py") 199 (s2l "ExtensionElement.transfer_to_element_tree") (s2l "cElementTree") (s2l "Element");
-  mk_use (s2l "saml2_tophat/__init__.py") 199 (s2l "ExtensionElement.transfer_to_element_tree") (s2l "elementtree.ElementTree") (s2l "Element");
-  mk_use (s2l "saml2_tophat/__init__.py") 199 (s2l "ExtensionElement.transfer_to_element_tree") (s2l "xml.etree.ElementTree") (s2l "Element");
-  mk_use (s2l "saml2_tophat/__init__.py") 199 (s2l "ExtensionElement.transfer_to_element_tree") (s2l "xml.etree.cElementTree") (s2l "Element");
-  mk_use (s2l "saml2_tophat/__init__.py") 569 (s2l "SamlBase._to_element_tree") (s2l "cElementTree") (s2l "Element");
-  mk_use (s2l "saml2_tophat/__init__.py") 569 (s2l "SamlBase._to_element_tree") (s2l "elementtree.ElementTree") (s2l "Element");
-  mk_use (s2l "saml2_tophat/__init__.py") 569 (s2l "SamlBase._to_element_tree") (s2l "xml.etree.ElementTree") (s2l "Element");
-  mk_use (s2l "saml2_tophat/__init__.py") 569 (s2l "SamlBase._to_element_tree") (s2l "xml.etree.cElementTree") (s2l "Element");
-  mk_use (s2l "saml2_tophat/__init__.py") 584 (s2l "SamlBase.register_prefix") (s2l "cElementTree") (s2l "register_namespace");
-  mk_use (s2l "saml2_tophat/__init__.py") 584 (s2l "SamlBase.register_prefix") (s2l "elementtree.ElementTree") (s2l "register_namespace");
-  mk_use (s2l "saml2_tophat/__init__.py") 584 (s2l "SamlBase.register_prefix") (s2l "xml.etree.ElementTree") (s2l "register_namespace");
-  mk_use (s2l "saml2_tophat/__init__.py") 584 (s2l "SamlBase.register_prefix") (s2l "xml.etree.cElementTree") (s2l "register_namespace");
-  mk_use (s2l "saml2_tophat/__init__.py") 587 (s2l "SamlBase.register_prefix") (s2l "cElementTree") (s2l "_namespace_map");
-  mk_use (s2l "saml2_tophat/__init__.py") 587 (s2l "SamlBase.register_prefix") (s2l "elementtree.ElementTree") (s2l "_namespace_map");
-  mk_use (s2l "saml2_tophat/__init__.py") 587 (s2l "SamlBase.register_prefix") (s2l "xml.etree.ElementTree") (s2l "_namespace_map");
-  mk_use (s2l "saml2_tophat/__init__.py") 587 (s2l "SamlBase.register_prefix") (s2l "xml.etree.cElementTree") (s2l "_namespace_map");
-  mk_use (s2l "saml2_tophat/__init__.py") 638 (s2l "SamlBase.get_xml_string_with_self_contained_assertion_within_advice_encrypted_assertion") (s2l "cElementTree") (s2l "tostring");
-  mk_use (s2l "saml2_tophat/__init__.py") 638 (s2l "SamlBase.get_xml_string_with_self_contained_assertion_within_advice_encrypted_assertion") (s2l "elementtree.ElementTree") (s2l "tostring");
-  mk_use (s2l "saml2_tophat/__init__.py") 638 (s2l "SamlBase.get_xml_string_with_self_contained_assertion_within_advice_encrypted_assertion") (s2l "xml.etree.ElementTree") (s2l "tostring");
-  mk_use (s2l "saml2_tophat/__init__.py") 638 (s2l "SamlBase.get_xml_string_with_self_contained_assertion_within_advice_encrypted_assertion") (s2l "xml.etree.cElementTree") (s2l "tostring");
-  mk_use (s2l "saml2_tophat/__init__.py") 658 (s2l "SamlBase.get_xml_string_with_self_contained_assertion_within_encrypted_assertion") (s2l "cElementTree") (s2l "tostring");
-  mk_use (s2l "saml2_tophat/__init__.py") 658 (s2l "SamlBase.get_xml_string_with_self_contained_assertion_within_encrypted_assertion") (s2l "elementtree.ElementTree") (s2l "tostring");
-  mk_use (s2l "saml2_tophat/__init__.py") 658 (s2l "SamlBase.get_xml_string_with_self_contained_assertion_within_encrypted_assertion") (s2l "xml.etree.ElementTree") (s2l "tostring");
-  mk_use (s2l "saml2_tophat/__init__.py") 658 (s2l "SamlBase.get_xml_string_with_self_contained_assertion_within_encrypted_assertion") (s2l "xml.etree.cElementTree") (s2l "tostring");
-  mk_use (s2l "saml2_tophat/__init__.py") 663 (s2l "SamlBase.set_prefixes") (s2l "cElementTree") (s2l "iselement");
-  mk_use (s2l "saml2_tophat/__init__.py") 663 (s2l "SamlBase.set_prefixes") (s2l "elementtree.ElementTree") (s2l "iselement");
-  mk_use (s2l "saml2_tophat/__init__.py") 663 (s2l "SamlBase.set_prefixes") (s2l "xml.etree.ElementTree") (s2l "iselement");
-  mk_use (s2l "saml2_tophat/__init__.py") 663 (s2l "SamlBase.set_prefixes") (s2l "xml.etree.cElementTree") (s2l "iselement");
-  mk_use (s2l "saml2_tophat/__init__.py") 707 (s2l "SamlBase.to_string_force_namespace") (s2l "cElementTree") (s2l "tostring");
-  mk_use (s2l "saml2_tophat/__init__.py") 707 (s2l "SamlBase.to_string_force_namespace") (s2l "elementtree.ElementTree") (s2l "tostring");
-  mk_use (s2l "saml2_tophat/__init__.py") 707 (s2l "SamlBase.to_string_force_namespace") (s2l "xml.etree.ElementTree") (s2l "tostring");
-  mk_use (s2l "saml2_tophat/__init__.py") 707 (s2l "SamlBase.to_string_force_namespace") (s2l "xml.etree.cElementTree") (s2l "tostring");
-  mk_use (s2l "saml2_tophat/__init__.py") 722 (s2l "SamlBase.to_string") (s2l "cElementTree") (s2l "tostring");
-  mk_use (s2l "saml2_tophat/__init__.py") 722 (s2l "SamlBase.to_string") (s2l "elementtree.ElementTree") (s2l "tostring");
-  mk_use (s2l "saml2_tophat/__init__.py") 722 (s2l "SamlBase.to_string") (s2l "xml.etree.ElementTree") (s2l "tostring");
-  mk_use (s2l "saml2_tophat/__init__.py") 722 (s2l "SamlBase.to_string") (s2l "xml.etree.cElementTree") (s2l "tostring");
+  mk_use (s2l "saml2_tophat/__init__.py") 174 (s2l "ExtensionElement.to_string") (s2l "cElementTree") (s2l "tostring");
+  mk_use (s2l "saml2_tophat/__init__.py") 174 (s2l "ExtensionElement.to_string") (s2l "elementtree.ElementTree") (s2l "tostring");
+  mk_use (s2l "saml2_tophat/__init__.py") 174 (s2l "ExtensionElement.to_string") (s2l "xml.etree.ElementTree") (s2l "tostring");
+  mk_use (s2l "saml2_tophat/__init__.py") 174 (s2l "ExtensionElement.to_string") (s2l "xml.etree.cElementTree") (s2l "tostring");
+  mk_use (s2l "saml2_tophat/__init__.py") 180 (s2l "ExtensionElement.transfer_to_element_tree") (s2l "cElementTree") (s2l "Element");
+  mk_use (s2l "saml2_tophat/__init__.py") 180 (s2l "ExtensionElement.transfer_to_element_tree") (s2l "elementtree.ElementTree") (s2l "Element");
+  mk_use (s2l "saml2_tophat/__init__.py") 180 (s2l "ExtensionElement.transfer_to_element_tree") (s2l "xml.etree.ElementTree") (s2l "Element");
+  mk_use (s2l "saml2_tophat/__init__.py") 180 (s2l "ExtensionElement.transfer_to_element_tree") (s2l "xml.etree.cElementTree") (s2l "Element");
+  mk_use (s2l "saml2_tophat/__init__.py") 550 (s2l "SamlBase._to_element_tree") (s2l "cElementTree") (s2l "Element");
+  mk_use (s2l "saml2_tophat/__init__.py") 550 (s2l "SamlBase._to_element_tree") (s2l "elementtree.ElementTree") (s2l "Element");
+  mk_use (s2l "saml2_tophat/__init__.py") 550 (s2l "SamlBase._to_element_tree") (s2l "xml.etree.ElementTree") (s2l "Element");
+  mk_use (s2l "saml2_tophat/__init__.py") 550 (s2l "SamlBase._to_element_tree") (s2l "xml.etree.cElementTree") (s2l "Element");
+  mk_use (s2l "saml2_tophat/__init__.py") 565 (s2l "SamlBase.register_prefix") (s2l "cElementTree") (s2l "register_namespace");
+  mk_use (s2l "saml2_tophat/__init__.py") 565 (s2l "SamlBase.register_prefix") (s2l "elementtree.ElementTree") (s2l "register_namespace");
+  mk_use (s2l "saml2_tophat/__init__.py") 565 (s2l "SamlBase.register_prefix") (s2l "xml.etree.ElementTree") (s2l "register_namespace");
+  mk_use (s2l "saml2_tophat/__init__.py") 565 (s2l "SamlBase.register_prefix") (s2l "xml.etree.cElementTree") (s2l "register_namespace");
+  mk_use (s2l "saml2_tophat/__init__.py") 568 (s2l "SamlBase.register_prefix") (s2l "cElementTree") (s2l "_namespace_map");
+  mk_use (s2l "saml2_tophat/__init__.py") 568 (s2l "SamlBase.register_prefix") (s2l "elementtree.ElementTree") (s2l "_namespace_map");
+  mk_use (s2l "saml2_tophat/__init__.py") 568 (s2l "SamlBase.register_prefix") (s2l "xml.etree.ElementTree") (s2l "_namespace_map");
+  mk_use (s2l "saml2_tophat/__init__.py") 568 (s2l "SamlBase.register_prefix") (s2l "xml.etree.cElementTree") (s2l "_namespace_map");
+  mk_use (s2l "saml2_tophat/__init__.py") 619 (s2l "SamlBase.get_xml_string_with_self_contained_assertion_within_advice_encrypted_assertion") (s2l "cElementTree") (s2l "tostring");
+  mk_use (s2l "saml2_tophat/__init__.py") 619 (s2l "SamlBase.get_xml_string_with_self_contained_assertion_within_advice_encrypted_assertion") (s2l "elementtree.ElementTree") (s2l "tostring");
+  mk_use (s2l "saml2_tophat/__init__.py") 619 (s2l "SamlBase.get_xml_string_with_self_contained_assertion_within_advice_encrypted_assertion") (s2l "xml.etree.ElementTree") (s2l "tostring");
+  mk_use (s2l "saml2_tophat/__init__.py") 619 (s2l "SamlBase.get_xml_string_with_self_contained_assertion_within_advice_encrypted_assertion") (s2l "xml.etree.cElementTree") (s2l "tostring");
+  mk_use (s2l "saml2_tophat/__init__.py") 639 (s2l "SamlBase.get_xml_string_with_self_contained_assertion_within_encrypted_assertion") (s2l "cElementTree") (s2l "tostring");
+  mk_use (s2l "saml2_tophat/__init__.py") 639 (s2l "SamlBase.get_xml_string_with_self_contained_assertion_within_encrypted_assertion") (s2l "elementtree.ElementTree") (s2l "tostring");
+  mk_use (s2l "saml2_tophat/__init__.py") 639 (s2l "SamlBase.get_xml_string_with_self_contained_assertion_within_encrypted_assertion") (s2l "xml.etree.ElementTree") (s2l "tostring");
+  mk_use (s2l "saml2_tophat/__init__.py") 639 (s2l "SamlBase.get_xml_string_with_self_contained_assertion_within_encrypted_assertion") (s2l "xml.etree.cElementTree") (s2l "tostring");
+  mk_use (s2l "saml2_tophat/__init__.py") 644 (s2l "SamlBase.set_prefixes") (s2l "cElementTree") (s2l "iselement");
+  mk_use (s2l "saml2_tophat/__init__.py") 644 (s2l "SamlBase.set_prefixes") (s2l "elementtree.ElementTree") (s2l "iselement");
+  mk_use (s2l "saml2_tophat/__init__.py") 644 (s2l "SamlBase.set_prefixes") (s2l "xml.etree.ElementTree") (s2l "iselement");
+  mk_use (s2l "saml2_tophat/__init__.py") 644 (s2l "SamlBase.set_prefixes") (s2l "xml.etree.cElementTree") (s2l "iselement");
+  mk_use (s2l "saml2_tophat/__init__.py") 688 (s2l "SamlBase.to_string_force_namespace") (s2l "cElementTree") (s2l "tostring");
+  mk_use (s2l "saml2_tophat/__init__.py") 688 (s2l "SamlBase.to_string_force_namespace") (s2l "elementtree.ElementTree") (s2l "tostring");
+  mk_use (s2l "saml2_tophat/__init__.py") 688 (s2l "SamlBase.to_string_force_namespace") (s2l "xml.etree.ElementTree") (s2l "tostring");
+  mk_use (s2l "saml2_tophat/__init__.py") 688 (s2l "SamlBase.to_string_force_namespace") (s2l "xml.etree.cElementTree") (s2l "tostring");
+  mk_use (s2l "saml2_tophat/__init__.py") 703 (s2l "SamlBase.to_string") (s2l "cElementTree") (s2l "tostring");
+  mk_use (s2l "saml2_tophat/__init__.py") 703 (s2l "SamlBase.to_string") (s2l "elementtree.ElementTree") (s2l "tostring");
+  mk_use (s2l "saml2_tophat/__init__.py") 703 (s2l "SamlBase.to_string") (s2l "xml.etree.ElementTree") (s2l "tostring");
+  mk_use (s2l "saml2_tophat/__init__.py") 703 (s2l "SamlBase.to_string") (s2l "xml.etree.cElementTree") (s2l "tostring");
   mk_use (s2l "saml2_tophat/pack.py") 24 (s2l "<module>") (s2l "cElementTree") (s2l "VERSION");
   mk_use (s2l "saml2_tophat/pack.py") 24 (s2l "<module>") (s2l "elementtree.ElementTree") (s2l "VERSION");
   mk_use (s2l "saml2_tophat/pack.py") 24 (s2l "<module>") (s2l "xml.etree.ElementTree") (s2l "VERSION");
